@@ -77,6 +77,11 @@ CLAIMS = {
         technique='symbolic execution (CrossHair/z3) of the text-mode front end and of compiled text templates with symbolic source characters / inserted values',
         text='Text-mode tokenizer and front end decided over all code points of each source shape; rendered output of text templates decided for all inserted values of k symbolic code points.',
         note='Trusted: CrossHair models + chsym plugin; the ${...} delimiting is covered by the C06 kernel.'),
+    'C18': dict(
+        engine='G', level='translation_validation', design_ref='DESIGN.md 4 C18',
+        technique='metamorphic differential symbolic execution (CrossHair/z3): the same template in several spellings of its language markup, all compiled by the real compiler, symbolic bindings; output scanned for language markup',
+        text='Per enumerated template the solver decides for all bindings that every spelling renders identically, that no TAL/METAL/I18N/meta attribute, prefix or namespace URI reaches the output and that every foreign attribute does.',
+        note='Trusted: CrossHair models; the re-spelling generator vlib/tprog.py. Prefix strings are enumerated (they become dict keys).'),
     'C03': dict(
         engine='X+Z', level='model_checking', design_ref='DESIGN.md 4 C03',
         technique='symbolic execution (CrossHair/z3) of iter_xml/match_tag/emitters on shape-enumerated character-symbolic strings; z3 regex inclusion from the live lexer pattern',
